@@ -192,6 +192,8 @@ pub(super) fn flush_check(file_path: String) {
     {
         let ready_to_delete = fully_allocated && locked == 0 && total > 0 && checkpointed >= total;
         if ready_to_delete {
+            #[cfg(walrus_verif)]
+            crate::wal::verif::reclaim_requested(&file_path);
             if let Some(tx) = DELETION_TX.get() {
                 let _ = tx.send(file_path);
             }
@@ -327,6 +329,24 @@ impl FileStateTracker {
                 st.checkpoint_block_ctr.fetch_add(1, Ordering::AcqRel);
             }
         }
+    }
+
+    #[cfg(walrus_verif)]
+    pub(super) fn verif_snapshot_all() -> Vec<crate::wal::verif::FileView> {
+        let map = Self::map();
+        let mut out = Vec::new();
+        if let Ok(r) = map.read() {
+            for (path, st) in r.iter() {
+                out.push(crate::wal::verif::FileView {
+                    path: path.clone(),
+                    locked: st.locked_block_ctr.load(Ordering::Acquire),
+                    checkpointed: st.checkpoint_block_ctr.load(Ordering::Acquire),
+                    total: st.total_blocks.load(Ordering::Acquire),
+                    fully_allocated: st.is_fully_allocated.load(Ordering::Acquire),
+                });
+            }
+        }
+        out
     }
 
     pub(super) fn get_state_snapshot(file_path: &str) -> Option<(u16, u16, u16, bool)> {
